@@ -40,10 +40,21 @@ func vxSameTyps(a, b []types.Type) bool {
 }
 
 // vxRegister plays the calls of one package through SetFuncName the way newPackage does (stop at the first error).
-func vxRegister(k int) {
+func vxRegister(k int) { vxRegisterU(k, vxUniverse()) }
+
+// vxUniverseOneWay: distinct type lists of which one is assignable to another but not conversely
+// (chan int -> <-chan int). The property's quantifier is over pairwise non-assignable types; this universe
+// probes just outside it.
+func vxUniverseOneWay() [][]types.Type {
+	i, s := types.Typ[types.Int], types.Typ[types.String]
+	ch := types.NewChan(types.SendRecv, i)
+	rch := types.NewChan(types.RecvOnly, i)
+	return [][]types.Type{{ch, i}, {rch, i}, {i, i}, {s, s}}
+}
+
+func vxRegisterU(k int, uni [][]types.Type) {
 	autoname := vx.Nondet[bool]("autoname")
 	dedup := vx.Nondet[bool]("dedup")
-	uni := vxUniverse()
 	vxNames := vxNameList()
 	// names the user calls elsewhere (defined functions): an arbitrary subset of the alphabet
 	reserved := map[string]struct{}{}
@@ -122,6 +133,7 @@ func vxRegister(k int) {
 func VX_C11_register_K2() { vxRegister(2) }
 func VX_C11_register_K3() { vxRegister(3) }
 func VX_C11_register_K4() { vxRegister(4) }
+func VX_C11_oneway_K2()   { vxRegisterU(2, vxUniverseOneWay()) }
 
 // ---------- C08: the name table does not depend on Go's map iteration order ----------
 
